@@ -1403,7 +1403,7 @@ func (c *aatApplyContext) applyKerxSubtable(st font.KernSubtable) bool {
 		if !c.plan.requestedKerning && !crossStream {
 			return false
 		}
-		dc := driverContextKerx1{c: c, table: data, crossStream: crossStream}
+		dc := driverContextKerx1{c: c, table: data, crossStream: crossStream, isExtended: st.IsExtended}
 		driver := newStateTableDriver(data.Machine, c.buffer, c.face)
 		driver.drive(&dc, c)
 	case font.Kern2:
@@ -1456,6 +1456,7 @@ type driverContextKerx1 struct {
 	stack       [8]int
 	depth       int
 	crossStream bool
+	isExtended  bool // 'kerx' (and not 'kern') subtable
 }
 
 func (driverContextKerx1) inPlace() bool { return true }
@@ -1468,7 +1469,8 @@ func (dc *driverContextKerx1) transition(driver stateTableDriver, entry tables.A
 	buffer := driver.buffer
 	flags := entry.Flags
 
-	if flags&kerx1Reset != 0 {
+	// in a 'kern' subtable, this bit belongs to the offset of the values
+	if dc.isExtended && flags&kerx1Reset != 0 {
 		dc.depth = 0
 	}
 
